@@ -93,6 +93,17 @@ theorem C19_ctx_irrelevant (t : ConvTree) (h : usesCtx t = false) (i f i' f' : S
     run t i f v tr = run t i' f' v tr := by
   simp only [run, applyObj_build]; exact ref_ctx_irrelevant t i f i' f' v tr h
 
+/-- **C19_assign_each_field**: on assignment in a class whose hooks include `setters.convert`, a field that uses
+    the converter is converted (with the instance and its own field) no matter how many validator-only or plain
+    fields are declared before it; those fields store the value and call nothing. -/
+theorem C19_assign_each_field (t : ConvTree) (pre : List Fld) (f : Fld)
+    (hpre : ∀ g ∈ pre, g.kind = .validator ∨ g.kind = .plain) (hf : f.kind = .shared) (v : Val) (tr : Trace) :
+    assignFields true (fun name v tr => run t selfText (fieldText name) v tr) (pre ++ [f]) v tr
+      = (pre.map (fun _ => (Res.ok v).render) ++ [(ref t selfText (fieldText f.name) v tr).1.render],
+         (ref t selfText (fieldText f.name) v tr).2) := by
+  rw [assignFields_after_hookless _ pre f hpre hf]
+  simp only [run, applyObj_build]
+
 /-- **C19_optional**: `optional(c)` maps None to None without calling anything, and is `c` on every other value. -/
 theorem C19_optional (c : ConvTree) (i f : String) (v : Val) (tr : Trace) :
     run (.optional c) i f .none tr = (.ok .none, tr) ∧
